@@ -67,8 +67,32 @@ pub enum ShapeVar {
 #[derive(Debug, Clone, PartialEq, Serialize)]
 pub struct UnitStruct;
 
+/// Newtype structs used as map keys (a key behind a newtype is still a key).
+#[derive(Debug, Clone, PartialEq, Eq, PartialOrd, Ord, Serialize)]
+pub struct SlotId(pub u32);
+#[derive(Debug, Clone, PartialEq, Eq, PartialOrd, Ord, Serialize)]
+pub struct NameKey(pub String);
+
+/// Serialized with `Serializer::collect_str`; its `Display` writes three pieces.
+#[derive(Debug, Clone, PartialEq)]
+pub struct ScopedId(pub String, pub u32);
+impl std::fmt::Display for ScopedId {
+    fn fmt(&self, f: &mut std::fmt::Formatter<'_>) -> std::fmt::Result {
+        f.write_str(&self.0)?;
+        f.write_str("#")?;
+        write!(f, "{}", self.1)
+    }
+}
+impl Serialize for ScopedId {
+    fn serialize<S: serde::Serializer>(&self, s: S) -> Result<S::Ok, S::Error> {
+        s.collect_str(self)
+    }
+}
+
 #[derive(Debug, Clone, PartialEq, Serialize)]
 pub struct Shapes {
+    pub id: ScopedId,
+    pub addr: Vec<std::net::IpAddr>,
     pub pad: String,
     pub f: f64,
     pub g: f32,
@@ -78,6 +102,8 @@ pub struct Shapes {
     pub c: char,
     pub keys: BTreeMap<i16, bool>,
     pub ckeys: BTreeMap<char, ()>,
+    pub nkeys: BTreeMap<SlotId, u8>,
+    pub skeys: BTreeMap<NameKey, i8>,
     pub unit: (),
     pub us: UnitStruct,
     pub nested: Option<Option<u8>>,
@@ -100,6 +126,9 @@ pub fn shapes(pad: String, flags: u8) -> Shapes {
         _ => ShapeVar::Empty {},
     };
     Shapes {
+        // the first piece is longer than a fresh write buffer in one case of four
+        id: ScopedId(if flags & 3 == 3 { "s".repeat(300) } else { format!("scope\"{}", flags) }, flags as u32),
+        addr: if flags & 16 != 0 { vec![std::net::IpAddr::from([127, 0, 0, flags]), std::net::IpAddr::from([0u16, 0, 0, 0, 0, 0xffff, 0x7f00, flags as u16])] } else { vec![] },
         pad,
         f,
         g,
@@ -109,6 +138,8 @@ pub fn shapes(pad: String, flags: u8) -> Shapes {
         c: ['a', '"', '\\', '\u{1f}', '\u{e9}', '\u{1F600}', '\u{0}', '/'][(flags as usize * 3) % 8],
         keys: if flags & 2 != 0 { BTreeMap::from([(-32768, true), (0, false), (flags as i16, true)]) } else { BTreeMap::new() },
         ckeys: if flags & 4 != 0 { BTreeMap::from([('"', ()), ('\u{1}', ())]) } else { BTreeMap::new() },
+        nkeys: if flags & 8 != 0 { BTreeMap::from([(SlotId(7), 1), (SlotId(u32::MAX), flags)]) } else { BTreeMap::new() },
+        skeys: if flags & 32 != 0 { BTreeMap::from([(NameKey("a\"b".into()), -1)]) } else { BTreeMap::new() },
         unit: (),
         us: UnitStruct,
         nested: [None, Some(None), Some(Some(7))][flags as usize % 3],
@@ -336,6 +367,76 @@ impl Msg {
                             SendOp::SendReply => conn.send_reply(&Reply::new(Some(&v))).await,
                             SendOp::SendError => conn.send_error(&v).await,
                         }
+                    }};
+                }
+                match kind {
+                    RefusedKind::BoolKey => go!(BTreeMap::from([(true, p)])),
+                    RefusedKind::FloatKey => go!(vec![(1.5f64, p)].into_iter().collect::<FloatKeyMap>()),
+                    RefusedKind::TupleKey => go!(BTreeMap::from([((1, 2), p)])),
+                    RefusedKind::OptionKey => go!(BTreeMap::from([(Some(1), p)])),
+                    RefusedKind::CustomError => go!((p, FailingSerialize)),
+                    RefusedKind::LateBoolKey => go!(LateBadKey(&p)),
+                }
+            }
+        }
+    }
+}
+
+/// Where a chain stands: not started yet (the connection itself) or under construction.
+pub enum ChainState<'c, S: zlink_core::connection::socket::Socket> {
+    Start(&'c mut zlink_core::Connection<S>),
+    Going(zlink_core::connection::chain::Chain<'c, S, OptParams, ErrA>),
+}
+
+impl<'c, S: zlink_core::connection::socket::Socket> ChainState<'c, S> {
+    fn step<M: Serialize + std::fmt::Debug>(
+        self,
+        call: &Call<M>,
+    ) -> zlink_core::Result<zlink_core::connection::chain::Chain<'c, S, OptParams, ErrA>> {
+        match self {
+            ChainState::Start(c) => c.chain_call::<M, OptParams, ErrA>(call),
+            ChainState::Going(ch) => ch.append(call),
+        }
+    }
+}
+
+impl Msg {
+    /// Can this message be a member of a chain (a call, or a refused value travelling as a call)?
+    pub fn chainable(&self) -> bool {
+        match self {
+            Msg::Ok { kind, .. } => matches!(kind, MsgKind::CallEcho | MsgKind::CallPut | MsgKind::CallPing),
+            Msg::Refused { .. } => true,
+        }
+    }
+
+    /// Start (`chain_call`) or extend (`append`) a chain with this message.
+    pub fn chain_step<'c, S: zlink_core::connection::socket::Socket>(
+        &self,
+        state: ChainState<'c, S>,
+    ) -> zlink_core::Result<zlink_core::connection::chain::Chain<'c, S, OptParams, ErrA>> {
+        match *self {
+            Msg::Ok { kind, flags, pad } => {
+                let p = pad_str(pad);
+                let method = match kind {
+                    MsgKind::CallEcho => MethodA::Echo { s: &p, n: flags as i64 - 7 },
+                    MsgKind::CallPut => MethodA::Put {
+                        key: if flags & 8 != 0 { format!("{ESCAPES}{p}") } else { p.clone() },
+                        val: if flags & 16 != 0 { Some(vec![1, -2, i64::MAX]) } else { None },
+                        tag: std::borrow::Cow::Borrowed("t\u{e9}g"),
+                    },
+                    MsgKind::CallPing => MethodA::Ping,
+                    other => panic!("{other:?} is not a call"),
+                };
+                let upgrade = flags & 4 != 0 && kind != MsgKind::CallPut;
+                let c = Call::new(method).set_oneway(flags & 1 != 0).set_more(flags & 2 != 0).set_upgrade(upgrade);
+                state.step(&c)
+            }
+            Msg::Refused { kind, pad } => {
+                let p = pad_str(pad);
+                macro_rules! go {
+                    ($v:expr) => {{
+                        let v = $v;
+                        state.step(&Call::new(RefusedMethod(&v)))
                     }};
                 }
                 match kind {
